@@ -127,6 +127,11 @@ func (e *Engine) VerifyFunction(fn *ssa.Function) (res *FuncResult) {
 			fr.checkErrProp(r, nil)
 		}
 	}
+	if ct != nil {
+		for _, sdir := range ct.Structure {
+			fx.obls = append(fx.obls, e.structural(fn, sdir))
+		}
+	}
 	res.Obligations = fx.obls
 	for n := range fx.notes {
 		res.Notes = append(res.Notes, n)
@@ -444,4 +449,91 @@ func (e *Engine) VerifyLemma(l *SpecFunc) *FuncResult {
 	o := &Obligation{Name: name + "#lemma:" + l.Name, Class: "lemma", Func: name, Prefix: fx.ctx.Mark(), Goal: Not(g).S, ctx: fx.ctx}
 	res.Obligations = []*Obligation{o}
 	return res
+}
+
+
+// structural obligations are decided on the SSA shape alone (back end "govc-structural").
+func (e *Engine) structural(fn *ssa.Function, dir string) *Obligation {
+	o := &Obligation{Name: fmt.Sprintf("%s#structure:%s", e.shortName(fn), strings.ReplaceAll(dir, " ", "-")), Class: "structure",
+		Func: e.shortName(fn), Solver: "govc-structural", Status: "failed"}
+	f := strings.Fields(dir)
+	calleeName := func(c *ssa.CallCommon) string {
+		if c.IsInvoke() {
+			return "iface:" + ifaceMethodName(c.Value.Type(), c.Method)
+		}
+		if sc := c.StaticCallee(); sc != nil {
+			return e.shortName(sc)
+		}
+		return "dynamic"
+	}
+	switch {
+	case len(f) == 1 && f[0] == "recover-first":
+		// before anything that can panic runs, a closure that calls recover() has been deferred unconditionally
+		for _, in := range fn.Blocks[0].Instrs {
+			switch x := in.(type) {
+			case *ssa.Alloc, *ssa.Store, *ssa.DebugRef, *ssa.MakeClosure, *ssa.UnOp, *ssa.FieldAddr:
+				continue
+			case *ssa.Defer:
+				clo := x.Call.StaticCallee()
+				if clo == nil {
+					o.Detail = "the first deferred call is not a statically known function"
+					return o
+				}
+				recovers := false
+				for _, b := range clo.Blocks {
+					for _, ci := range b.Instrs {
+						if c, ok := ci.(*ssa.Call); ok {
+							if bi, ok := c.Call.Value.(*ssa.Builtin); ok && bi.Name() == "recover" {
+								recovers = true
+							}
+						}
+					}
+				}
+				if recovers {
+					o.Status = "proved"
+					o.Detail = "entry block defers " + e.shortName(clo) + ", which calls recover(), before any call"
+				} else {
+					o.Detail = "the first deferred function does not call recover()"
+				}
+				return o
+			default:
+				o.Detail = fmt.Sprintf("instruction %T precedes the deferred recover", in)
+				return o
+			}
+		}
+		o.Detail = "no defer in the entry block"
+	case len(f) == 4 && f[0] == "defers" && f[2] == "after":
+		// the value produced by <after> is handed to a deferred <callee> before any other call
+		for _, b := range fn.Blocks {
+			for i, in := range b.Instrs {
+				c, ok := in.(*ssa.Call)
+				if !ok || !globMatch(f[3], calleeName(c.Common())) {
+					continue
+				}
+				for _, nx := range b.Instrs[i+1:] {
+					switch y := nx.(type) {
+					case *ssa.DebugRef, *ssa.Store, *ssa.Alloc, *ssa.FieldAddr, *ssa.UnOp, *ssa.MakeClosure:
+						continue
+					case *ssa.Defer:
+						if globMatch(f[1], calleeName(y.Common())) && len(y.Call.Args) > 0 && y.Call.Args[0] == ssa.Value(c) {
+							o.Status = "proved"
+							o.Detail = "deferred on the created value immediately after creation, in block " + b.String()
+							return o
+						}
+						o.Detail = "a different call is deferred first"
+						return o
+					default:
+						o.Detail = fmt.Sprintf("instruction %T separates creation from the deferred release", nx)
+						return o
+					}
+				}
+			}
+		}
+		if o.Detail == "" {
+			o.Detail = "creation call not found"
+		}
+	default:
+		o.Detail = "unknown structural directive"
+	}
+	return o
 }
